@@ -716,7 +716,8 @@ func (m *Manager) flushMemTable(mem *memtable.MemTable) error {
 			// Add this as a new entry (includes tombstones)
 			var valueCopy []byte
 			if currentValue != nil {
-				valueCopy = append([]byte(nil), currentValue...)
+				// An empty value must stay non-nil: nil marks a tombstone
+				valueCopy = append([]byte{}, currentValue...)
 			}
 			// Note: valueCopy remains nil for tombstones
 
@@ -733,7 +734,7 @@ func (m *Manager) flushMemTable(mem *memtable.MemTable) error {
 				// This is a newer version of the same key, replace the previous entry
 				var valueCopy []byte
 				if currentValue != nil {
-					valueCopy = append([]byte(nil), currentValue...)
+					valueCopy = append([]byte{}, currentValue...)
 				}
 				// Note: valueCopy remains nil for tombstones
 
